@@ -449,8 +449,8 @@ class MTSPSpec(RSpec):
 class MDCPDPSpec(RSpec):
     has_checker = False
 
-    def __init__(self, key, reward_mode, problem_mode, D, depot_mode="multiple"):
-        super().__init__(key, "mdcpdp", MDCPDPEnv, cfg=dict(reward_mode=reward_mode, problem_mode=problem_mode, dist_mode="L2"), env_kwargs=dict(reward_mode=reward_mode, problem_mode=problem_mode))
+    def __init__(self, key, reward_mode, problem_mode, D, depot_mode="multiple", dist_mode="L2"):
+        super().__init__(key, "mdcpdp", MDCPDPEnv, cfg=dict(reward_mode=reward_mode, problem_mode=problem_mode, dist_mode=dist_mode), env_kwargs=dict(reward_mode=reward_mode, problem_mode=problem_mode, dist_mode=dist_mode))
         self.D = D
         self.depot_mode = depot_mode
 
@@ -504,7 +504,7 @@ class MTVRPSpec(RSpec):
     def env(self, inst, check_solution=False):
         return super().env(inst, check_solution=check_solution)
 
-    def _inst(self, pts, lh, bh, L, tw, st, exact=True):
+    def _inst(self, pts, lh, bh, L, tw, st, exact=True, speed=1.0):
         n = len(pts)
         return dict(
             locs=[list(C)] + [list(p) for p in pts],
@@ -516,7 +516,7 @@ class MTVRPSpec(RSpec):
             vehicle_capacity=[1.0],
             capacity_original=[30.0],
             open_route=[self.O],
-            speed=[1.0],
+            speed=[speed],
             _exact=exact,
         )
 
@@ -553,6 +553,15 @@ class MTVRPSpec(RSpec):
         for (lh, bh), L, (twi, (tw, st)) in itertools.product(dem, limits, list(enumerate(tws))):
             iid = f"diamond3-lh{'-'.join(str(int(x * 4)) for x in lh)}-bh{'-'.join(str(int(x * 4)) for x in bh)}-L{L}-tw{twi}"
             out.append((iid, self._inst(pts, lh, bh, L, [list(w) for w in tw], list(st))))
+        if self.TW:
+            # vehicle speed is a documented generator argument / per-instance field: travel TIME is distance / speed
+            (lh, bh), L = dem[0], limits[-1]
+            for twi in (1, 2) if tier == "quick" else range(len(tws)):
+                for sp in (2.0,) if tier == "quick" else (2.0, 0.5):
+                    tw, st = tws[twi]
+                    if sp < 1.0:  # slower vehicle: stretch all times so that the instance stays sane
+                        tw, st = [[a / sp, b / sp] for a, b in tw], [x / sp for x in st]
+                    out.append((f"diamond3-lh{'-'.join(str(int(x * 4)) for x in lh)}-L{L}-tw{twi}-speed{sp}", self._inst(pts, lh, bh, L, [list(w) for w in tw], list(st), speed=sp)))
         return out
 
     def seeded_sizes(self, tier):
@@ -587,6 +596,8 @@ def all_specs():
         for pm in ("close", "open"):
             for D in (1, 2):
                 specs.append(MDCPDPSpec(f"mdcpdp:{rm}:{pm}:D{D}", rm, pm, D))
+            # the documented Manhattan-distance mode (single depot)
+            specs.append(MDCPDPSpec(f"mdcpdp:{rm}:{pm}:D1:L1", rm, pm, 1, dist_mode="L1"))
     for v in MTVRP_VARIANTS:
         specs.append(MTVRPSpec(v))
     return specs
